@@ -26,6 +26,7 @@ import (
 //   I junk challenge                                   J 235 success            K 535 failure
 //   L replayed server-final: the valid one of an EARLIER exchange of the same Auth object (abandoned
 //     by a restart in this session, or completed on a previous connection); G's value if there is none
+//   M server-final with an empty verifier ("v=")
 
 type c15Case struct {
 	Mech string `json:"mech"` // SCRAM-SHA-1 | SCRAM-SHA-256 | SCRAM-SHA-1-PLUS | SCRAM-SHA-256-PLUS
@@ -152,7 +153,7 @@ func c15Conn(c *c15Case, seq string, given smtp.Auth, shared *c15Shared) (*c15Re
 				if kind == "client-final" {
 					out.violation = core.V("continued-after-invalid-server-first", "the client sent a client-final message in response to an invalid server-first (%c): %q", sym, resp)
 				}
-			case 'E', 'F', 'G', 'L':
+			case 'E', 'F', 'G', 'L', 'M':
 				if kind == "empty" {
 					// the client acknowledged this server-final message
 					if sym == 'E' && cfinOK {
@@ -221,6 +222,8 @@ func c15Conn(c *c15Case, seq string, given smtp.Auth, shared *c15Shared) (*c15Re
 					m.Write([]byte("Server Key"))
 					challenge = "v=" + mac(m.Sum(nil), "")
 				}
+			case 'M':
+				challenge = "v=" // a server-final message with an EMPTY verifier
 			case 'H':
 				challenge = ""
 			case 'I':
@@ -344,7 +347,7 @@ func c15Run(c c15Case) []*core.Violation {
 	if out.authErr != nil && out.legit {
 		vs = append(vs, core.V("legit-exchange-failed", "a complete, valid exchange (%s) ended in the error %v; trace %v", c.Seq, out.authErr, out.trace))
 	}
-	if strings.ContainsAny(c.Seq, "AEFGL") {
+	if strings.ContainsAny(c.Seq, "AEFGLM") {
 		rec.NonTrivial(fmt.Sprintf("%s/%s/%v", c.Mech, c.Seq, c.Reuse))
 		rec.Sample(fmt.Sprintf("%s/%d/%v", c.Mech, len(c.Seq), out.authErr == nil), map[string]interface{}{"mech": c.Mech, "sequence": c.Seq, "trace": out.trace, "auth_error": fmt.Sprint(out.authErr), "legit": out.legit})
 	}
@@ -353,9 +356,9 @@ func c15Run(c c15Case) []*core.Violation {
 
 func c15Describe() {
 	rec := core.Rec("C15")
-	rec.Rule = "bounded-exhaustive: every server message sequence of length <= 5 (PLUS variants <= 4) in quick and <= 7 (PLUS <= 6) in thorough over the alphabet {A valid server-first, B server-first with foreign nonce, C with truncated nonce, D malformed server-first, E valid server-final, F server-final made with another key, G server-final over empty state, H empty challenge, I junk, J 235, K 535, L replayed valid server-final of an earlier exchange of the same Auth object}, for SCRAM-SHA-1, SCRAM-SHA-256 and both PLUS variants (over a real TLS 1.2 handshake on an in-memory connection), driven through smtp.Client.Auth, also with an Auth object that completed a genuine exchange on an earlier connection (reuse, sequences <= 4 / <= 6); depth-first with pruning once the client has aborted or the exchange ended. " +
+	rec.Rule = "bounded-exhaustive: every server message sequence of length <= 5 (PLUS variants <= 4) in quick and <= 7 (PLUS <= 6) in thorough over the alphabet {A valid server-first, B server-first with foreign nonce, C with truncated nonce, D malformed server-first, E valid server-final, F server-final made with another key, G server-final over empty state, H empty challenge, I junk, J 235, K 535, L replayed valid server-final of an earlier exchange of the same Auth object, M server-final with an empty verifier}, for SCRAM-SHA-1, SCRAM-SHA-256 and both PLUS variants (over a real TLS 1.2 handshake on an in-memory connection), driven through smtp.Client.Auth, also with an Auth object that completed a genuine exchange on an earlier connection (reuse, sequences <= 4 / <= 6); depth-first with pruning once the client has aborted or the exchange ended. " +
 		"Oracle (reference tracker of the exchange): Auth returns nil only if, since the last client-first, the valid server-first was answered by a verifying client-final and the valid server-final was acknowledged before the 235; the client sends client-final only after a valid server-first and acknowledges a v= message only when it is the valid one; a complete valid exchange succeeds. " +
-		"Non-trivial: the sequence contains a message that is valid for some exchange (A, E, F, G or L). Distinct by (mechanism, sequence)."
+		"Non-trivial: the sequence contains a message that is valid for some exchange (A, E, F, G, L or M). Distinct by (mechanism, sequence)."
 	rec.Assumptions = []string{"PBKDF2 iteration count 4 to keep the enumeration cheap", "known finding scram-bare-235: a 235 is accepted whatever preceded it; counted and excluded by signature"}
 }
 
@@ -371,7 +374,7 @@ func TestC15Enum(t *testing.T) {
 	}
 	c15Describe()
 	p := core.Prop[c15Case]{ID: "C15", Test: "TestC15", Run: c15Run}
-	alphabet := "ABCDEFGHIJKL"
+	alphabet := "ABCDEFGHIJKLM"
 	type job struct {
 		mech  string
 		max   int
